@@ -217,7 +217,7 @@ func genDataCase(r *core.RNG, o dataGenOpts) dataCase {
 	}
 	d.Spec.MType = byte(mt)
 	if r.Chance(1, 8) {
-		d.Spec.Major = byte(r.Intn(4))
+		d.Spec.Major = mj(byte(r.Intn(4)))
 	}
 	r.Fill(d.Spec.DevAddr[:])
 	if r.Chance(1, 4) {
